@@ -884,7 +884,7 @@ def gen_c13(rng, tier):
     for i in range(n):
         ds, de = rng.choice(G.DELIMS)
         cfg = G.Cfg("tl", "rm", "+00:00", G.NOW, ("x",))
-        unit = rng.choice(["  ", "    ", "\t"])
+        unit = rng.choice(["  ", "    ", "\t", " \t", "\t ", "\t \t"])
         first = rng.random() < 0.15
         lines, expect = block_doc(rng, ds, de, cfg, unit, first)
         final_nl = rng.random() < 0.5
@@ -1051,7 +1051,7 @@ def gen_c11(rng, tier):
     for i in range(n):
         ds, de = rng.choice(G.DELIMS)
         cfg = G.Cfg("tl", "rm", "+00:00", G.NOW, ("x",))
-        unit = rng.choice(["  ", "    ", "\t"])
+        unit = rng.choice(["  ", "    ", "\t", " \t", "\t "])
         first = rng.random() < 0.12
         tu = rng.randint(0, 2)
         lines, exp = unwrap_doc(rng, ds, de, cfg, unit, 1, tu, first, k_between=rng.choice([0, 1, 2, 2, 3, 4, 5, 6]))
